@@ -1,24 +1,28 @@
 package world
 
 import (
+	"errors"
 	"fmt"
 	"time"
 
 	"go.sia.tech/core/consensus"
 	"go.sia.tech/core/types"
+	"verif/ref"
 )
 
 // A scratch is a private fork of a node's chain on which the adversary offers
 // blocks and mines ahead without disturbing the world.
 type scratch struct {
-	w     *World
-	s     consensus.State
-	store *Store
-	best  []types.BlockID
+	w      *World
+	s      consensus.State
+	store  *Store
+	best   []types.BlockID
+	ledger *ref.Ledger // reference ledger of the scratch tip (nil if unavailable)
+	last   consensus.ApplyUpdate
 }
 
 func (n *Node) fork() *scratch {
-	return &scratch{w: n.w, s: n.tip, store: n.store.clone(), best: append([]types.BlockID(nil), n.best...)}
+	return &scratch{w: n.w, s: n.tip, store: n.store.clone(), best: append([]types.BlockID(nil), n.best...), ledger: n.w.ledgers[n.tip.Index.ID]}
 }
 
 func (sc *scratch) child() uint64 { return sc.s.Index.Height + 1 }
@@ -44,24 +48,64 @@ func (sc *scratch) nextTimestamp() time.Time {
 
 // extend mines an empty block with the given timestamp on the scratch fork.
 func (sc *scratch) extend(ts time.Time) bool {
+	err := sc.mineAt(ts, nil, nil)
+	if err != nil && !sc.w.fatal {
+		sc.w.harnessErr("scratch fork: empty block rejected at height %d: %v", sc.child(), err)
+	}
+	return err == nil
+}
+
+// mine validates and applies a block with the given transactions on the
+// scratch fork; the reference ledger follows and is compared after the block.
+func (sc *scratch) mine(v1 []types.Transaction, v2 []types.V2Transaction) error {
+	return sc.mineAt(sc.nextTimestamp(), v1, v2)
+}
+
+func (sc *scratch) mineAt(ts time.Time, v1 []types.Transaction, v2 []types.V2Transaction) error {
 	w := sc.w
-	b := w.assemble(sc.s, ts, w.miners[0].addr, nil, nil, false)
+	b := w.assemble(sc.s, ts, w.miners[0].addr, v1, v2, false)
 	bs := sc.supplement(b)
 	var err error
 	if p := guard(func() { err = consensus.ValidateBlock(sc.s, b, bs) }); p != "" {
-		w.violate("C10", "validate-panic", "empty block on a scratch fork: "+p)
-		return false
+		w.violate("C10", "validate-panic", "block on a scratch fork: "+p)
+		w.fatal = true
+		return fmt.Errorf("panic")
 	}
 	if err != nil {
-		w.harnessErr("scratch fork: empty block rejected at height %d: %v", sc.child(), err)
-		return false
+		return err
 	}
-	ns, au := consensus.ApplyBlock(sc.s, b, bs, w.genesis.Timestamp)
+	var ns consensus.State
+	var au consensus.ApplyUpdate
+	if p := guard(func() { ns, au = consensus.ApplyBlock(sc.s, b, bs, w.genesis.Timestamp) }); p != "" {
+		w.violate("C10", "apply-panic", "validated block on a scratch fork: "+p)
+		w.fatal = true
+		return fmt.Errorf("panic")
+	}
 	sc.store.apply(au)
 	sc.best = append(sc.best, b.ID())
 	sc.s = ns
+	sc.last = au
 	w.stats.Inc("probe.scratch-blocks")
-	return true
+	if sc.ledger != nil {
+		var exp []types.FileContractID
+		for _, fce := range bs.ExpiringFileContracts {
+			exp = append(exp, fce.ID)
+		}
+		l, lerr := sc.ledger.Apply(b, exp)
+		if lerr != nil {
+			var re *ref.RuleError
+			if errors.As(lerr, &re) {
+				w.violate(re.Property, "ledger-"+re.Rule, fmt.Sprintf("scratch block at height %d was accepted by ValidateBlock but: %s", ns.Index.Height, re.Detail))
+			} else {
+				w.harnessErr("scratch ledger: %v", lerr)
+			}
+			sc.ledger = nil
+			return nil
+		}
+		sc.ledger = l
+		w.checkStore(fmt.Sprintf("scratch fork after block at height %d: ", ns.Index.Height), sc.store, sc.s, l, "apply")
+	}
+	return nil
 }
 
 // offerOpt controls how a probe block is sealed.
@@ -332,6 +376,13 @@ func (w *World) runProbes(n *Node) {
 
 func (w *World) extrasApplied(n *Node, e *blockEntry, au consensus.ApplyUpdate, first bool) {
 	w.advApplied(n, e, au)
+	rate := 8
+	if w.cfg.Profile == "C06" || w.cfg.Profile == "C07" {
+		rate = 1
+	}
+	if w.tape.Choose(rate) == 0 {
+		w.revertProbe(n, e)
+	}
 	if first && !w.quiet && w.tape.Chance(w.cfg.ProbePM, 1000) && len(w.cfg.ProbeRows) > 0 {
 		w.runProbes(n)
 	}
